@@ -311,7 +311,9 @@ impl<'p> Gen<'p> {
                 self.rng.shuffle(&mut ms);
             }
             let (kind, boxed, poison) = *self.rng.pick(&[(CollKind::Boxed, false, false), (CollKind::Boxed, true, false), (CollKind::Retry, false, false), (CollKind::Ref, true, false), (CollKind::Boxed, false, true), (CollKind::Retry, true, true)]);
-            w.targets.push(TSpec::Slice { kind, boxed, members: ms, poison });
+            // plain arrays as children where the length fits
+            let array = !poison && ((kind == CollKind::Boxed && ms.len() == 2) || (kind == CollKind::Retry && ms.len() == 3)) && self.rng.chance(1, 2);
+            w.targets.push(TSpec::Slice { kind, boxed, members: ms, poison, array });
         }
         // what an owned collection's members could be reached through, if anything (nothing, normally)
         for u in 0..w.units.len() {
@@ -397,7 +399,17 @@ impl<'p> Gen<'p> {
             api,
             lent_key: api.is_scoped() && self.rng.chance(self.p.lent_pct, 100),
             body,
-            release: if self.rng.chance(self.p.unlock_pct, 100) { if self.rng.chance(1, 4) { Release::UnlockInDrop } else { Release::Unlock } } else { Release::Drop },
+            release: if self.rng.chance(self.p.unlock_pct, 100) {
+                if self.rng.chance(1, 4) {
+                    Release::UnlockInDrop
+                } else {
+                    Release::Unlock
+                }
+            } else if !api.is_scoped() && self.rng.chance(self.p.misuse_pct, 200) {
+                Release::TakeApart
+            } else {
+                Release::Drop
+            },
         }
     }
 
@@ -538,7 +550,7 @@ pub fn gen_guard_travel(profile: &str, seed: u64) -> Scenario {
     let mk = |rng: &mut Rng, g: &mut Gen, ls: Vec<usize>| -> TSpec {
         if rng.chance(1, 4) {
             let (kind, boxed, poison) = *rng.pick(&[(CollKind::Boxed, false, false), (CollKind::Boxed, true, false), (CollKind::Retry, false, false), (CollKind::Ref, true, false), (CollKind::Boxed, false, true)]);
-            TSpec::Slice { kind, boxed, members: ls, poison }
+            TSpec::Slice { kind, boxed, members: ls, poison, array: false }
         } else {
             let cont = g.pick_cont(ls.len());
             let kind = *rng.pick(&[CollKind::Boxed, CollKind::Ref, CollKind::Retry]);
@@ -770,7 +782,7 @@ pub fn gen_c07_big(seed: u64) -> Scenario {
                 (CollKind::Retry, _) => (CollKind::Retry, false),
                 (k, b) => (k, b),
             };
-            targets.push(TSpec::Slice { kind, boxed, members: ms, poison: false });
+            targets.push(TSpec::Slice { kind, boxed, members: ms, poison: false, array: false });
         } else {
             let cont = *rng.pick(&[ContKind::Vec, ContKind::BoxSlice]);
             targets.push(TSpec::Coll { kind, cont, members: ms.into_iter().map(TSpec::Leaf).collect(), poison: false });
